@@ -15,15 +15,23 @@ import (
 
 // Case is one correspondence case.
 type Case struct {
-	ID   string
-	R    *R
-	Refs []*Ref
-	Obs  []Obs
+	ID      string
+	Prop    string
+	R       *R
+	Refs    []*Ref
+	Obs     []Obs
+	Oracles []string
+	Hops    [][][]string // hop sequences the oracles use (unknown keys per process)
+	UTok    []string     // tokens that entered through unsafe channels only
+	STok    []string     // tokens that entered through safe channels
+	Hostile bool
 }
 
 type runResult struct {
 	caseLine string
 	obsLine  string
+	fails    []OracleFail
+	evals    int
 }
 
 func runCase(c *Case) (res runResult) {
@@ -70,7 +78,14 @@ func runCaseInner(c *Case) runResult {
 			out = append(out, observe(o, e, refs))
 		}
 	}
-	return runResult{caseLine: caseSx.String(), obsLine: L(out...).String()}
+	res := runResult{caseLine: caseSx.String(), obsLine: L(out...).String()}
+	if buildPanic == "" {
+		res.fails, res.evals = runOracles(c, e, refs, ctx)
+	} else if len(c.Oracles) > 0 {
+		res.fails = []OracleFail{{Prop: c.Prop, CaseID: c.ID, Oracle: "build", What: "building the error panicked: " + buildPanic,
+			Recipe: c.R.Sx().String(), ReplayArgs: map[string]interface{}{"recipe": c.R.Sx().String(), "oracles": c.Oracles, "prop": c.Prop}}}
+	}
+	return res
 }
 
 func main() {
@@ -81,6 +96,8 @@ func main() {
 	switch os.Args[1] {
 	case "gen":
 		cmdGen(os.Args[2:])
+	case "replay":
+		cmdReplay(os.Args[2:])
 	default:
 		fmt.Fprintln(os.Stderr, "unknown command", os.Args[1])
 		os.Exit(2)
@@ -100,7 +117,9 @@ func cmdGen(args []string) {
 	}
 	os.MkdirAll(*out, 0o755)
 	g := NewGen(*seed)
-	cases, oracleFails := propCases(*prop, g, *n)
+	cases := propCases(*prop, g, *n)
+	var oracleFails []OracleFail
+	oracleEvals := 0
 
 	cf, _ := os.Create(filepath.Join(*out, "cases.sexp"))
 	of, _ := os.Create(filepath.Join(*out, "observed.sexp"))
@@ -112,6 +131,8 @@ func cmdGen(args []string) {
 	var samples []string
 	for i, c := range cases {
 		res := runCase(c)
+		oracleFails = append(oracleFails, res.fails...)
+		oracleEvals += res.evals
 		cw.WriteString(res.caseLine)
 		cw.WriteByte('\n')
 		ow.WriteString(res.obsLine)
@@ -140,8 +161,8 @@ func cmdGen(args []string) {
 	meta := map[string]interface{}{
 		"prop": *prop, "seed": *seed, "cases": len(cases),
 		"distinct_nontrivial": len(distinct),
-		"ops": stats, "depth_hist": depthHist, "samples": samples,
-		"oracle_failures": oracleFails,
+		"ops":                 stats, "depth_hist": depthHist, "samples": samples,
+		"oracle_failures": oracleFails, "oracle_evaluations": oracleEvals,
 	}
 	mb, _ := json.MarshalIndent(meta, "", " ")
 	os.WriteFile(filepath.Join(*out, "meta.json"), mb, 0o644)
@@ -151,4 +172,57 @@ func cmdGen(args []string) {
 	}
 	sort.Strings(keys)
 	fmt.Printf("generated %d cases for %s (seed %d), %d oracle failures\n", len(cases), *prop, *seed, len(oracleFails))
+}
+
+// cmdReplay re-runs the oracles of a replay file on the current implementation.
+func cmdReplay(args []string) {
+	if len(args) < 1 {
+		fmt.Fprintln(os.Stderr, "replay: file required")
+		os.Exit(2)
+	}
+	raw, err := os.ReadFile(args[0])
+	if err != nil {
+		fmt.Fprintln(os.Stderr, err)
+		os.Exit(2)
+	}
+	var f struct {
+		ReplayArgs struct {
+			Recipe  string       `json:"recipe"`
+			Refs    []string     `json:"refs"`
+			Oracles []string     `json:"oracles"`
+			Hops    [][][]string `json:"hops"`
+			UTok    []string     `json:"utok"`
+			STok    []string     `json:"stok"`
+			Prop    string       `json:"prop"`
+			Hostile bool         `json:"hostile"`
+		} `json:"replay_args"`
+	}
+	if err := json.Unmarshal(raw, &f); err != nil {
+		fmt.Fprintln(os.Stderr, err)
+		os.Exit(2)
+	}
+	a := f.ReplayArgs
+	rx, err := ParseSx(a.Recipe)
+	if err != nil {
+		fmt.Fprintln(os.Stderr, err)
+		os.Exit(2)
+	}
+	c := &Case{ID: "replay", Prop: a.Prop, R: ParseR(rx), Oracles: a.Oracles, Hops: a.Hops, UTok: a.UTok, STok: a.STok, Hostile: a.Hostile}
+	for _, r := range a.Refs {
+		x, err := ParseSx(r)
+		if err != nil {
+			fmt.Fprintln(os.Stderr, err)
+			os.Exit(2)
+		}
+		c.Refs = append(c.Refs, ParseRef(x))
+	}
+	res := runCase(c)
+	if len(res.fails) == 0 {
+		fmt.Println("replay: the property holds on this input now")
+		return
+	}
+	for _, fl := range res.fails {
+		fmt.Printf("replay: STILL FAILING (%s): %s\n  %s\n", fl.Oracle, fl.What, fl.Detail)
+	}
+	os.Exit(1)
 }
